@@ -205,9 +205,9 @@ def gen_amp_options(rng, f_lo):
 
 
 def gen_pipeline_case(rng, families=None, methods=('cycles', 'amp'), nsec=(1.0, 6.0),
-                      small=False):
+                      small=False, low=0.08):
     """A full compute_features case (materialised)."""
-    fs, lo, hi = gen_config(rng, small=small)
+    fs, lo, hi = gen_config(rng, small=small, low=low)
     kind = None if families is None else str(rng.choice(families))
     sig, kind = gen_signal(rng, fs, lo, hi, duration(rng, lo, nsec), kind)
     center = str(rng.choice(['peak', 'trough']))
